@@ -151,3 +151,74 @@ func VH_C10_pubsub() {
 	vassert("C10.K3.publish_count", n1 == want && n2 == want)
 	vobs("pubsub", want)
 }
+
+// VH_C10_pubsub_interleaved: publishes interleaved with (un)subscribes while the receivers' queues are not drained
+// (slow readers). A message published while a subscription was in force stays queued for it - in particular
+// cancelling the exact subscription does not take away what the pattern subscription of the same connection
+// is owed, and the other way round - exactly once per subscription, in publish order.
+//verif:cfg b_history=4_operations(subscribe|unsubscribe_x_2_connections_x_channel|pattern,_or_publish) b_queues=never_drained ignorego=1
+func VH_C10_pubsub_interleaved() {
+	s := vhServer()
+	targets := [2]*subtarget{newSubtarget(), newSubtarget()}
+	names := [2]string{"ch", "c*"}
+	var inForce [2][2]bool
+	var must [2][2][]string   // owed to subscription (t,k) and still in force since
+	var may [2][2][]string    // published while in force, subscription cancelled later (either outcome is acceptable)
+	msgs := [4]string{"m1", "m2", "m3", "m4"}
+	np := 0
+	for i := 0; i < 4; i++ {
+		if vchoose(3) == 0 {
+			m := msgs[np]
+			np++
+			n := s.Publish("ch", m)
+			want := 0
+			for t := 0; t < 2; t++ {
+				for k := 0; k < 2; k++ {
+					if inForce[t][k] {
+						must[t][k] = append(must[t][k], m)
+						want++
+					}
+				}
+			}
+			vassert("C10.K3.publish_count", n == want)
+			continue
+		}
+		t, k, sub := vchoose(2), vchoose(2), vnondetBool()
+		if sub {
+			s.pubsub.register(k, names[k], targets[t])
+			inForce[t][k] = true
+		} else {
+			s.pubsub.unregister(k, names[k], targets[t])
+			inForce[t][k] = false
+			may[t][k] = append(may[t][k], must[t][k]...)
+			must[t][k] = nil
+		}
+	}
+	for t := 0; t < 2; t++ {
+		for k := 0; k < 2; k++ {
+			// the queued messages of kind k: every owed message exactly once and in order; anything else only if it
+			// was published while the (later cancelled) subscription was in force
+			j, ok := 0, true
+			for _, m := range targets[t].msgs {
+				if int(m.kind) != k {
+					continue
+				}
+				if j < len(must[t][k]) && m.message == must[t][k][j] {
+					j++
+					continue
+				}
+				allowed := false
+				for _, x := range may[t][k] {
+					if x == m.message {
+						allowed = true
+					}
+				}
+				if !allowed {
+					ok = false
+				}
+			}
+			vassert("C10.K3.queued_messages_of_a_subscription_in_force_are_kept", ok && j == len(must[t][k]))
+		}
+	}
+	vobs("interleaved", np)
+}
